@@ -81,7 +81,7 @@ def _c17(tier, seed):
                  validate_runs=["H_C17_table(4,4)", "H_C17_table(5,4)", "H_C17_arbitrary(12)", "H_C17_catalogue()"],
                  covers={"H_C17_table": ["numeric", "non-numeric"], "H_C17_arbitrary": ["no-row"]}),
             dict(name="delivery", pkg=".", harness=["harness/root/net.go", "harness/root/c16.go", "harness/root/c17.go", "harness/root/c17b.go"],
-                 runs=["H_C17_delivery(%d)" % r for r in ([-1, 2, 4, 5] if q else [-1] + [r for r in range(15) if r != 9])] + ["H_C17_migrate(0)", "H_C17_migrate(1)", "H_C17_migrate_other_client()"],
+                 runs=["H_C17_delivery(%d)" % r for r in ([-1, 2, 4, 5] if q else [-1] + [r for r in range(15) if r != 9])] + ["H_C17_migrate(0)", "H_C17_migrate(1)", "H_C17_migrate(2)", "H_C17_migrate_other_client()"],
                  solver="z3", walllimit=600, timeout=3000, replay="schedule", crash_tags=["process-survives"],
                  validate_runs=["H_C17_delivery(4)"], veclen=100, covers={"H_C17_migrate": ["configured", "unconfigured"]})]
 
